@@ -145,6 +145,7 @@ ASCII_ACCT = "ABCDEFGHIJKLMNOPQRSTUVWXYZabcdefghijklmnopqrstuvwxyz0123456789:-_&
 WIDE = "資産現金銀行口座負債費用収益食料品交通電気水道預金株式あいうえおかきくけこアイウエオカキクケコ한국은행ＡＢＣ１２３"
 AMBIG2 = "±×÷°§¶¡¿"  # width 2 in an East Asian context, 1 otherwise
 NARROW_NONASCII = "αβγδλΩЖдяéñüÆ"
+UBLANK = "\u3000\u00a0"
 
 
 class Widths:
@@ -187,6 +188,10 @@ def account_of_width(rng, W, aw, flavor):
                 pool = NARROW_NONASCII
             elif r < 0.72 and out and out[-1] != " " and left >= 2:
                 pool = " "
+            elif r < 0.80 and out:
+                # blanks outside ASCII (what a Japanese input method types for a space, a no-break space) are ordinary account
+                # characters - in the middle and at the END of a name, where a printer that trims and a width that does not part
+                pool = UBLANK
         elif flavor == "ascii" and r < 0.06 and out and out[-1] != " " and left >= 2:
             pool = " "
         c = rng.choice(pool)
@@ -805,7 +810,7 @@ def run(chk):
             chk.violation("leanchecker rejects Okane.Props.C19", {"broken": "leanchecker", "log": out[-3000:]},
                           no_failing_input=True, tag="proof")
     W = Widths()
-    W.load(ASCII_ACCT + WIDE + AMBIG2 + NARROW_NONASCII + " *!;=")
+    W.load(ASCII_ACCT + WIDE + AMBIG2 + NARROW_NONASCII + UBLANK + " *!;=")
 
     # --- stream 1: the width table, code point by code point --------------------------------------------------------
     ranges = run_drv(["c19", "ranges"], ["x"])[0].split()
